@@ -86,7 +86,11 @@ func (l *Lookup) RunFree(r *gen.Rand) (out Outcome) {
 		defer dmu.Unlock()
 		return time.Duration(dr.Intn(200)) * time.Microsecond
 	}
-	mode := r.Intn(3)
+	mode := r.Intn(4)
+	if mode == 3 {
+		l.stopInside = 1 + r.Intn(6)
+		l.stopInsideDone = make(chan struct{})
+	}
 	l.Start()
 	var adders sync.WaitGroup
 	for _, b := range l.Net.Late {
@@ -186,6 +190,20 @@ func (l *Lookup) RunFree(r *gen.Rand) (out Outcome) {
 		l.stopCalled = true
 		l.mu.Unlock()
 		l.Op.Stop()
+	case 3:
+		// Stop comes from inside DoQuery; a lookup that runs dry before that query exists is
+		// stopped from here.
+		select {
+		case <-l.stopInsideDone:
+			out.StopsFromInside++
+		case <-l.Op.Stalled():
+			l.Op.Stop()
+		case <-time.After(20 * time.Second):
+			stuck("neither-stalled-nor-reached-the-stopping-query")
+			l.Op.Stop()
+			return
+		}
+		adders.Wait()
 	case 2:
 		time.Sleep(time.Duration(r.Intn(600)) * time.Microsecond)
 		// Stop while queries and adds are in progress.
